@@ -22,9 +22,11 @@ from `/repo` on every run. Helper lemmas: `SFV/Lemmas/Comb*.lean`.
   ports `0 … P-1`, of the received tokens with that key (`cartConfigs` = `itertools.product`), every member retagged
   `own tag[:-1] ++ [last component of every member]`. `WFCart depth P L S`: `depth ≥ 1`, `P ≥ 1`, no repeated
   event, ports below `P`, all tags of the same length `L`, per port distinct tags.
-* Nested combinators (outer dot product over flat inner dot/cartesian products, `runNested`): only the OUTER level
-  is proved (`nested_any_order_partial`); the composition with the inner theorems is checked by correspondence
-  and monitor only (`nested_any_order` of DESIGN §4 is NOT proved in full). -/
+* Nested combinators (`runNested`: outer dot product over ports and flat inner dot/cartesian products): the two
+  trees the CWL translator builds are proved by composition (`nested_cart_any_order`, `nested_dot_any_order`,
+  emitted schemas related to the specification up to the order of their entries, `EmRel`); for arbitrary items
+  only the OUTER level is proved (`nested_any_order_partial`) — the rest of DESIGN §4's `nested_any_order`
+  (inner cartesian depth ≥ 2, several inner combinators) is checked by correspondence and monitor only. -/
 namespace SFV.C02
 open SFV SFV.Comb
 
